@@ -36,9 +36,12 @@ bool g_full = true;
 void atexit_flush() { g_full = true; stats_flush(); }
 }  // namespace
 
+static pid_t g_main_pid = 0;
+void stats_flush();
 void stats_init(const char* property) {
   if (g_inited) return;
   g_inited = true;
+  g_main_pid = getpid();
   g_prop = property;
   const char* d = getenv("VP_STATS_DIR");
   g_dir = d ? d : "";
@@ -74,6 +77,7 @@ void kf_hit(const char* id) { g_kf_hits[id]++; }
 
 void stats_flush() {
   if (g_dir.empty()) return;
+  if (g_main_pid && getpid() != g_main_pid) return;   // a forked child (e.g. libdbus' babysitter calling exit()) must not report
   char path[4096];
   snprintf(path, sizeof path, "%s/stats.%d.json.tmp", g_dir.c_str(), (int)getpid());
   FILE* f = fopen(path, "w");
